@@ -105,6 +105,7 @@ type plScenario struct {
 	PointInAddPartition bool // the per-handler dropped-collection probe inside AddPartition is a scheduling point
 	MsgPosPChannel bool // message positions name the source pchannel (as the MQ layer does) instead of the vchannel
 	HeavyBound int // lower deviation bound for a scenario with many streams
+	ConnFailAt int  // the n-th connectivity check of a new channel handler is refused (scripted: the check runs under the channel lock)
 	SlowEvents bool // the event queue of the channel manager is full and its consumer takes an event only when nothing else can run
 	PartAppearsOnAnnounce bool // the source catalog lists a named partition only from the moment its creation is announced (addpart driver)
 	Kafka      bool // the downstream is Kafka: no downstream catalog, the source's own ids / channels / partitions address the messages
@@ -554,6 +555,16 @@ func plExecute(t *testing.T, sc *plScenario, ctl *sched.Ctl) *plRun {
 	// goroutine parked there would block the others on a mutex; outside the lock the check-then-act window of
 	// startReadChannel is open and has to be explored.
 	fac := &fakemq.Factory{MQ: r.mq}
+	if sc.ConnFailAt > 0 {
+		n := 0
+		fac.AsConsumerErr = func(chs []string) error {
+			n++
+			if n == sc.ConnFailAt {
+				return errors.New("injected: the source message queue refuses the connection")
+			}
+			return nil
+		}
+	}
 	fac.OnNewStream = func() {
 		if r.mgr == nil {
 			return
@@ -714,6 +725,7 @@ func plExecute(t *testing.T, sc *plScenario, ctl *sched.Ctl) *plRun {
 						&pb.PartitionInfo{PartitionID: c.partID(d.Part), PartitionName: d.Part, CollectionId: c.ID, PartitionCreatedTimestamp: plTs(950, 0), State: d.PartState})
 				}
 			}
+			r.snapMapping() // (the assignment as every driver leaves it: a driver may run to its end without a scheduling point)
 			r.hmu.Lock()
 			r.driverErr[name] = err
 			r.driverDone[name] = true
